@@ -454,15 +454,17 @@ def reach_map(body):
             if isinstance(v, (dict, list)):
                 ex(v, ctx)
 
-    def st(s, ctx):
+    def st(s, ctx, rest_throws=False):
         if not isinstance(s, dict):
             return
         m[id(s)] = ctx
         k = s.get("k")
         if k == "Block":
             cur = ctx
-            for c in s.get("s", []):
-                st(c, cur)
+            ss = s.get("s", [])
+            for j, c in enumerate(ss):
+                # `if (c) { ...; return; } throw ...;` is the guard `if (!c) throw` written the other way round
+                st(c, cur, isinstance(c, dict) and c.get("k") == "If" and c.get("e") is None and leaves(c.get("t")) and j + 1 < len(ss) and always_throws({"k": "Block", "s": ss[j + 1:]}))
                 if isinstance(c, dict) and c.get("k") == "If":
                     lt, le = leaves(c.get("t")), (leaves(c.get("e")) if c.get("e") is not None else False)
                     if lt and not le:
@@ -472,9 +474,10 @@ def reach_map(body):
             return
         if k == "If":
             ex(s.get("c"), ctx)
-            st(s.get("t"), ctx + _tag(literals(s["c"]), "if"))
+            t_guard = rest_throws or (s.get("e") is not None and always_throws(s["e"]))
+            st(s.get("t"), ctx + _tag(literals(s["c"]), "after-throw" if t_guard else "if"))
             if s.get("e") is not None:
-                st(s["e"], ctx + _tag(negate(s["c"]), "else"))
+                st(s["e"], ctx + _tag(negate(s["c"]), "after-throw" if always_throws(s.get("t")) else "else"))
             return
         if k in ("For", "While"):
             if isinstance(s.get("init"), dict):
@@ -613,3 +616,37 @@ def ctext(fn, e, values=True):
         return C(txt(e, canon_inl(fn)))
     finally:
         _VALUES[0] = old
+
+
+# ---------------------------------------------------------------------------------------------------------------------------
+# inlined view: statement-level calls of void members of the same class replaced by the callee's body (parameters replaced by
+# the arguments), so that a rule sees the same statements whether or not a block was extracted into a private helper
+# ---------------------------------------------------------------------------------------------------------------------------
+def inlined_body(fn, by_pat, depth=2, _stack=(), keep=()):
+    import copy
+
+    def subst(node, m):
+        if isinstance(node, list):
+            return [subst(x, m) for x in node]
+        if not isinstance(node, dict):
+            return node
+        if node.get("k") == "Ref" and node.get("d") in m:
+            return copy.deepcopy(m[node["d"]])
+        return {k: subst(v, m) for k, v in node.items()}
+
+    def rec(s, d):
+        if isinstance(s, list):
+            return [rec(x, d) for x in s]
+        if not isinstance(s, dict):
+            return s
+        if s.get("k") == "Expr" and isinstance(strip(s.get("e")), dict) and strip(s["e"]).get("k") == "Call" and d > 0:
+            c = strip(s["e"])
+            cal = by_pat.get(c.get("cpat"))
+            if cal is not None and cal is not fn and cal.get("body") is not None and cal.get("rect") == fn.get("rect") and cal.get("ret") == "void" and cal.get("name") not in keep \
+                    and cal["pat"] not in _stack and len(cal.get("params", [])) == len(c.get("args", [])) and (c.get("obj") is None or strip(c["obj"]).get("k") == "This"):
+                m = {p["d"]: a for p, a in zip(cal["params"], c["args"])}
+                body = subst(cal["body"], m)
+                inner = inlined_body({"body": body, "rect": cal.get("rect"), "pat": cal["pat"]}, by_pat, d - 1, _stack + (fn.get("pat"), cal["pat"]), keep)
+                return {"k": "Block", "s": stmts_of(inner), "loc": s.get("loc"), "inlined": cal.get("name")}
+        return {k: rec(v, d) for k, v in s.items()}
+    return rec(fn.get("body"), depth)
